@@ -318,6 +318,7 @@ Record reg_ok (heighted : bool) (id : Z) (rg : registration) (lim : option Z)
   ok_id : rg_id rg = id;
   ok_lim : exists L, lim = Some L /\ 1 <= L /\ rg_num rg <= L;
   ok_num0 : 0 <= rg_num rg;
+  ok_num1 : log <> [] -> 1 <= rg_num rg;
   ok_numlen : rg_num rg <= Z.of_nat (List.length log);
   ok_recs : rs = lastn (Z.to_nat (rg_num rg)) log;
   ok_si : strictly_increasing (map fst log);
@@ -438,7 +439,8 @@ Proof.
       rewrite (inv_recs_unreg _ _ _ _ I Hun).
       change (log_of _ (r_next s)) with (log_of g (r_next s)). rewrite (inv_log_reg _ _ _ I _ Hun).
       pose proof (inv_next _ _ _ I). split; [lia|].
-      constructor; cbn; try reflexivity; try (constructor; fail); try lia.
+      constructor; cbn; try reflexivity; try (constructor; fail); try lia;
+        try (intros H0; exfalso; apply H0; reflexivity).
       eexists; split; [reflexivity|]. lia.
     + rewrite aget_aset_neq in G by congruence. rewrite aget_aset_neq by congruence.
       destruct (inv_regs _ _ _ I _ _ G) as [Hr Hok]. split; [lia | exact Hok].
@@ -536,6 +538,7 @@ Proof.
   - exists L. split; [reflexivity|]. split; [exact HL1|]. rewrite Hnum'.
     destruct (L <? rg_num rg + 1) eqn:Ep; lia.
   - rewrite Hnum'. destruct (L <? rg_num rg + 1); lia.
+  - intros _. rewrite Hnum'. destruct (L <? rg_num rg + 1) eqn:Ep; lia.
   - rewrite Hnum', app_length. cbn [List.length]. destruct (L <? rg_num rg + 1); lia.
   - subst rs'. rewrite Hnum'. destruct (L <? rg_num rg + 1) eqn:Ep.
     + rewrite lastn_snoc_full by lia. rewrite <- ok_recs0. reflexivity.
@@ -662,11 +665,10 @@ Proof.
     assert (E0 : (0 <? rg_lowest rg) = true) by lia.
     assert (E1 : (rg_lowest rg =? 0) = false) by lia.
     rewrite E0, E1, Hlow. fold recs2.
-    exists recs2. eexists. exists d.
-    split; [destruct heighted; reflexivity|].
-    split; [exact Hrs2|]. split; [exact Hoth|]. split; [exact Hget|]. split; [exact ND2|].
-    split; [reflexivity|].
-    destruct heighted; cbn [rg_id rg_last rg_num rg_lowest rg_owner rg_moniker rg_name rg_genesis rg_type rg_regtime];
+    destruct heighted; (exists recs2; eexists; exists d; split; [reflexivity|]);
+      (split; [exact Hrs2|]; split; [exact Hoth|]; split; [exact Hget|]; split; [exact ND2|];
+       split; [reflexivity|]);
+      cbn [rg_id rg_last rg_num rg_lowest rg_owner rg_moniker rg_name rg_genesis rg_type rg_regtime];
       repeat split; try reflexivity; try lia; exact Hlow2.
   - (* room left: nothing is pruned *)
     assert (Hlow1 : (if rg_lowest rg =? 0 then k else rg_lowest rg) = hd 0 (map fst (rs ++ [(k, rc)]))).
@@ -682,4 +684,870 @@ Proof.
     split; [exact ND1|]. split; [reflexivity|].
     cbn [rg_id rg_last rg_num rg_lowest rg_owner rg_moniker rg_name rg_genesis rg_type rg_regtime].
     rewrite Hrs1. repeat split; try reflexivity. exact Hlow1.
+Qed.
+
+Lemma reg_exec_record_inv heighted t s o id key hashes s' r :
+  reg_exec heighted t s (RRecord o id key hashes) = Ok (s', r) ->
+  exists rg k pr, aget id (r_regs s) = Some rg /\ o = rg_owner rg /\
+    (heighted = true -> key <> 0 /\ rg_last rg < key) /\
+    existsb (too_long 66) hashes = false /\
+    record_new heighted t s rg key hashes = (s', k, pr) /\ r = RespRecorded id k.
+Proof.
+  cbn [reg_exec]. destruct (heighted && (key =? 0)) eqn:E0; [discriminate|].
+  destruct (existsb (too_long 66) hashes) eqn:E1; [discriminate|].
+  destruct (aget id (r_regs s)) as [rg|]; [|discriminate].
+  destruct (negb (o =? rg_owner rg)) eqn:Eo; [discriminate|].
+  destruct (heighted && negb (rg_last rg <? key)) eqn:E2; [discriminate|].
+  destruct (record_new heighted t s rg key hashes) as [[s1 k] pr] eqn:ER.
+  intros [= <- <-]. exists rg, k, pr.
+  split; [reflexivity|]. split; [lia|]. split; [intros ->; cbn in E0, E2; lia|].
+  split; [reflexivity|]. split; [exact ER|reflexivity].
+Qed.
+
+Definition new_key (heighted : bool) (rg : registration) (key : Z) : Z :=
+  if heighted then key else rg_last rg + 1.
+Definition new_rec (heighted : bool) (t : Z) (rg : registration) (key : Z) (hashes : list string) : record :=
+  {| rc_key := new_key heighted rg key; rc_hashes := hashes; rc_time := if heighted then t else key |}.
+
+Lemma reg_inv_record heighted t s g o id key hashes s' r :
+  reg_inv heighted s g -> u64 key ->
+  reg_exec heighted t s (RRecord o id key hashes) = Ok (s', r) ->
+  exists rg, aget id (r_regs s) = Some rg /\
+    let k := new_key heighted rg key in
+    let rc := new_rec heighted t rg key hashes in
+    r = RespRecorded id k /\ aget (id, k) (r_recs s') = Some rc /\
+    reg_inv heighted s' {| g_log := aset id (log_of g id ++ [(k, rc)]) (g_log g); g_reg := g_reg g |}.
+Proof.
+  intros I Hkey E. apply reg_exec_record_inv in E.
+  destruct E as [rg [k0 [pr0 [G [Ho [Hh [_ [ER ->]]]]]]]].
+  exists rg. split; [exact G|]. intros k rc.
+  assert (Hk : rg_last rg < k).
+  { subst k. unfold new_key. destruct heighted; [apply Hh; reflexivity | lia]. }
+  destruct (record_new_shape heighted t s g id rg key hashes I G Hk (fun _ => Hkey))
+    as [recs' [rg' [pr [ER' [Hrs [Hoth [Hget [ND' [_ [Hid' [Hlast' [Hnum' [Hlow' [Hown [Hmon [Hname [Hgen [Hty Hrt]]]]]]]]]]]]]]]]]].
+  fold (new_key heighted rg key) in ER', Hrs, Hlast'. fold k in ER', Hrs, Hlast'.
+  fold (new_rec heighted t rg key hashes) in Hrs. fold rc in Hrs.
+  rewrite ER in ER'. injection ER' as -> -> ->.
+  destruct (inv_regs _ _ _ I _ _ G) as [Hr Hok].
+  destruct (inv_limit _ _ _ _ _ I G) as [HL [HL1 HL2]]. rewrite HL in Hok.
+  cbn [with_regs r_recs]. split; [reflexivity|].
+  split.
+  { apply (aget_recs_of _ _ _ _ ND'). rewrite Hrs. apply in_or_app; right; left; reflexivity. }
+  constructor; cbn [with_regs r_params r_next r_regs r_limits r_recs g_reg].
+  - apply NoDup_akeys_aset, (inv_nd_regs _ _ _ I).
+  - apply (inv_nd_limits _ _ _ I).
+  - exact ND'.
+  - apply (inv_params _ _ _ I).
+  - apply (inv_next _ _ _ I).
+  - intros id' rg'' G'. rewrite log_of_aset. destruct (Z.eq_dec id' id) as [->|N].
+    + rewrite aget_aset_eq in G'. injection G' as <-. rewrite Z.eqb_refl, HL, Hrs.
+      split; [exact Hr|].
+      eapply reg_ok_record; try eassumption; try reflexivity.
+      * intros Hh'. subst k. unfold new_key. rewrite Hh'. exact Hkey.
+      * intros Hh'. subst k. unfold new_key. rewrite Hh'. reflexivity.
+      * rewrite Hlow', Hrs. reflexivity.
+    + rewrite aget_aset_neq in G' by congruence.
+      apply Z.eqb_neq in N as N'. rewrite N', (Hoth _ N). apply (inv_regs _ _ _ I _ _ G').
+  - intros id' k' rc' G'. destruct (Z.eq_dec id' id) as [->|N]; [rewrite aget_aset_eq; discriminate|].
+    rewrite aget_aset_neq by congruence. rewrite (Hget _ _ N) in G'. apply (inv_recs_reg _ _ _ I _ _ _ G').
+  - rewrite akeys_aset_in; [apply (inv_limit_keys _ _ _ I) | eapply aget_Some_In_akeys; exact G].
+  - intros id' G'. rewrite log_of_aset.
+    destruct (Z.eq_dec id' id) as [->|N]; [rewrite aget_aset_eq in G'; discriminate|].
+    rewrite aget_aset_neq in G' by congruence. apply Z.eqb_neq in N. rewrite N.
+    apply (inv_log_reg _ _ _ I _ G').
+  - intros id' m t' Hin. destruct (inv_meta _ _ _ I _ _ _ Hin) as [rg0 [G0 M]].
+    destruct (Z.eq_dec id' id) as [->|N].
+    + exists rg'. split; [apply aget_aset_eq|]. rewrite G in G0. injection G0 as <-.
+      destruct m; cbn [meta_ok] in *; try contradiction.
+      rewrite Hown, Hmon, Hname, Hgen, Hty, Hrt. exact M.
+    + exists rg0. split; [|exact M]. rewrite aget_aset_neq by congruence. exact G0.
+Qed.
+
+(* ---- one step, a run ---- *)
+
+Lemma reg_inv_step heighted s g t m :
+  reg_inv heighted s g -> reg_msg_wf m -> 0 <= t ->
+  reg_inv heighted (fst (reg_step heighted (s, g) (t, m))) (snd (reg_step heighted (s, g) (t, m))).
+Proof.
+  intros I Hwf Ht. unfold reg_step.
+  destruct (reg_validate_basic heighted m) as [[]| |]; [|exact I|exact I].
+  destruct (reg_exec heighted t s m) as [[s' r]| |] eqn:E; [|exact I|exact I].
+  destruct m as [o moniker name genesis type | o id key hashes | o id n].
+  - pose proof (reg_exec_register_inv _ _ _ _ _ _ _ _ _ _ E) as [-> _].
+    cbn [fst snd]. eapply reg_inv_register; eassumption.
+  - destruct Hwf as [_ [_ Hkey]].
+    destruct (reg_inv_record _ _ _ _ _ _ _ _ _ _ I Hkey E) as [rg [G [-> [Hget I']]]].
+    rewrite Hget. cbn [fst snd]. exact I'.
+  - destruct Hwf as [_ [_ [Hn _]]].
+    pose proof (reg_exec_purchase_inv _ _ _ _ _ _ _ _ E) as [rg [_ [_ [_ [_ [_ [_ ->]]]]]]].
+    cbn [fst snd]. exact (reg_inv_purchase _ _ _ _ _ _ _ _ _ I Hn E).
+Qed.
+
+Definition hist_wf (h : list (Z * reg_msg)) : Prop :=
+  Forall (fun tm => reg_msg_wf (snd tm) /\ 0 <= fst tm) h.
+
+Lemma reg_inv_run heighted h : forall s g,
+  reg_inv heighted s g -> hist_wf h ->
+  reg_inv heighted (fst (reg_run heighted (s, g) h)) (snd (reg_run heighted (s, g) h)).
+Proof.
+  induction h as [|[t m] h IH]; intros s g I Hh; [exact I|].
+  inversion Hh as [|? ? [Hm Ht] Hh']; subst. cbn [fst snd] in Hm, Ht.
+  unfold reg_run. cbn [fold_left]. fold (reg_run heighted).
+  pose proof (reg_inv_step heighted s g t m I Hm Ht) as I'.
+  destruct (reg_step heighted (s, g) (t, m)) as [s1 g1]. apply IH; assumption.
+Qed.
+
+(* ================================================================== *)
+(* 5. What one step can be                                             *)
+(* ================================================================== *)
+
+(* record_new never touches parameters, the id counter or the limits (no invariant needed) *)
+Lemma record_new_frame heighted t s rg key hashes s' k pr :
+  record_new heighted t s rg key hashes = (s', k, pr) ->
+  r_params s' = r_params s /\ r_next s' = r_next s /\ r_limits s' = r_limits s.
+Proof.
+  unfold record_new.
+  destruct (limit_of s (rg_id rg) <? rg_num rg + 1);
+    [destruct heighted; [destruct (0 <? rg_lowest rg)|]|];
+    intros [= <- _ _]; repeat split; reflexivity.
+Qed.
+
+Inductive step_case (heighted : bool) (s : reg_state) (g : ghost) (t : Z) (m : reg_msg)
+                    (s1 : reg_state) (g1 : ghost) : Prop :=
+| SC_rejected :
+    s1 = s -> g1 = g ->
+    (is_ok (reg_validate_basic heighted m) = false \/ is_ok (reg_exec heighted t s m) = false) ->
+    step_case heighted s g t m s1 g1
+| SC_register o moniker name genesis type :
+    m = RRegister o moniker name genesis type ->
+    reg_exec heighted t s m = Ok (s1, RespRegistered (r_next s)) ->
+    g1 = {| g_log := g_log g; g_reg := g_reg g ++ [(r_next s, m, t)] |} ->
+    step_case heighted s g t m s1 g1
+| SC_record o id key hashes rg :
+    m = RRecord o id key hashes -> aget id (r_regs s) = Some rg -> u64 key ->
+    reg_exec heighted t s m = Ok (s1, RespRecorded id (new_key heighted rg key)) ->
+    aget (id, new_key heighted rg key) (r_recs s1) = Some (new_rec heighted t rg key hashes) ->
+    g1 = {| g_log := aset id (log_of g id ++ [(new_key heighted rg key, new_rec heighted t rg key hashes)])
+                          (g_log g);
+            g_reg := g_reg g |} ->
+    step_case heighted s g t m s1 g1
+| SC_purchase o id n c :
+    m = RPurchase o id n -> 0 <= n ->
+    reg_exec heighted t s m = Ok (s1, RespPurchased id n c) -> g1 = g ->
+    step_case heighted s g t m s1 g1.
+
+Lemma reg_step_cases heighted s g t m s1 g1 :
+  reg_inv heighted s g -> reg_msg_wf m ->
+  reg_step heighted (s, g) (t, m) = (s1, g1) -> step_case heighted s g t m s1 g1.
+Proof.
+  intros I Hwf. unfold reg_step.
+  destruct (reg_validate_basic heighted m) as [[]| |] eqn:EV;
+    [| intros [= <- <-]; apply SC_rejected; auto; left; rewrite EV; reflexivity
+     | intros [= <- <-]; apply SC_rejected; auto; left; rewrite EV; reflexivity].
+  destruct (reg_exec heighted t s m) as [[s' r]| |] eqn:E;
+    [| intros [= <- <-]; apply SC_rejected; auto; right; rewrite E; reflexivity
+     | intros [= <- <-]; apply SC_rejected; auto; right; rewrite E; reflexivity].
+  destruct m as [o moniker name genesis type | o id key hashes | o id n].
+  - pose proof (reg_exec_register_inv _ _ _ _ _ _ _ _ _ _ E) as [-> _].
+    intros [= <- <-]. eapply SC_register; [reflexivity | exact E | reflexivity].
+  - destruct Hwf as [_ [_ Hkey]].
+    destruct (reg_inv_record _ _ _ _ _ _ _ _ _ _ I Hkey E) as [rg [G [-> [Hget I']]]].
+    rewrite Hget. intros [= <- <-]. eapply SC_record; try reflexivity; eassumption.
+  - destruct Hwf as [_ [_ [Hn _]]].
+    pose proof (reg_exec_purchase_inv _ _ _ _ _ _ _ _ E) as [rg [_ [_ [_ [_ [_ [_ ->]]]]]]].
+    intros [= <- <-]. eapply SC_purchase; [reflexivity | exact Hn | exact E | reflexivity].
+Qed.
+
+(* a run, one step at a time, with the invariant carried along *)
+Lemma reg_run_ind heighted (P : reg_state -> ghost -> reg_state -> ghost -> Prop) :
+  (forall s g, reg_inv heighted s g -> P s g s g) ->
+  (forall s g t m s1 g1 s2 g2,
+     reg_inv heighted s g -> reg_msg_wf m -> 0 <= t ->
+     reg_step heighted (s, g) (t, m) = (s1, g1) -> reg_inv heighted s1 g1 ->
+     P s1 g1 s2 g2 -> P s g s2 g2) ->
+  forall h s g s' g', reg_inv heighted s g -> hist_wf h ->
+    reg_run heighted (s, g) h = (s', g') -> P s g s' g'.
+Proof.
+  intros Hrefl Hstep. induction h as [|[t m] h IH]; intros s g s' g' I Hh.
+  - intros [= <- <-]. apply Hrefl; exact I.
+  - inversion Hh as [|? ? [Hm Ht] Hh']; subst. cbn [fst snd] in Hm, Ht.
+    unfold reg_run. cbn [fold_left]. fold (reg_run heighted).
+    pose proof (reg_inv_step heighted s g t m I Hm Ht) as I'.
+    destruct (reg_step heighted (s, g) (t, m)) as [s1 g1] eqn:ES. cbn [fst snd] in I'.
+    intros ER. eapply Hstep; try eassumption. eapply IH; eassumption.
+Qed.
+
+Lemma reg_inv_run' heighted h s g s' g' :
+  reg_inv heighted s g -> hist_wf h -> reg_run heighted (s, g) h = (s', g') -> reg_inv heighted s' g'.
+Proof.
+  intros I Hh ER. pose proof (reg_inv_run heighted h s g I Hh) as I'. rewrite ER in I'. exact I'.
+Qed.
+
+(* ---- the ghost only grows ---- *)
+
+Lemma reg_step_ghost_grows heighted s g t m s1 g1 id :
+  reg_inv heighted s g -> reg_msg_wf m -> reg_step heighted (s, g) (t, m) = (s1, g1) ->
+  (exists l, log_of g1 id = log_of g id ++ l) /\ (exists l, g_reg g1 = g_reg g ++ l).
+Proof.
+  intros I Hwf ES. destruct (reg_step_cases _ _ _ _ _ _ _ I Hwf ES)
+    as [-> -> _ | o mon name gen ty -> _ -> | o id0 key hashes rg -> _ _ _ _ -> | o id0 n c -> _ _ ->].
+  - split; exists []; rewrite app_nil_r; reflexivity.
+  - split; [exists []; rewrite app_nil_r; reflexivity | eexists; reflexivity].
+  - split; [|exists []; rewrite app_nil_r; reflexivity]. rewrite log_of_aset.
+    destruct (id =? id0) eqn:E; [apply Z.eqb_eq in E; subst; eexists; reflexivity|].
+    exists []; rewrite app_nil_r; reflexivity.
+  - split; exists []; rewrite app_nil_r; reflexivity.
+Qed.
+
+Lemma reg_run_ghost_grows heighted h s g s' g' id :
+  reg_inv heighted s g -> hist_wf h -> reg_run heighted (s, g) h = (s', g') ->
+  (exists l, log_of g' id = log_of g id ++ l) /\ (exists l, g_reg g' = g_reg g ++ l).
+Proof.
+  revert h s g s' g'.
+  apply (reg_run_ind heighted (fun s g s' g' =>
+    (exists l, log_of g' id = log_of g id ++ l) /\ (exists l, g_reg g' = g_reg g ++ l))).
+  - intros s g _. split; exists []; rewrite app_nil_r; reflexivity.
+  - intros s g t m s1 g1 s2 g2 I Hm Ht ES I1 [[l2 H2] [r2 R2]].
+    destruct (reg_step_ghost_grows _ _ _ _ _ _ _ id I Hm ES) as [[l1 H1] [r1 R1]].
+    split; [exists (l1 ++ l2); rewrite H2, H1, app_assoc; reflexivity
+           | exists (r1 ++ r2); rewrite R2, R1, app_assoc; reflexivity].
+Qed.
+
+(* ================================================================== *)
+(* 6. C07: accepted records are append-only and tamper-proof           *)
+(* ================================================================== *)
+
+(* everything that can be queried was accepted exactly so *)
+Lemma inv_query_sound heighted s g id k rc :
+  reg_inv heighted s g -> q_record s id k = Some rc -> In (k, rc) (log_of g id).
+Proof.
+  unfold q_record. intros I Q. pose proof Q as Q'.
+  apply (inv_recs_reg _ _ _ I) in Q'. destruct (aget id (r_regs s)) as [rg|] eqn:G; [|contradiction].
+  destruct (inv_regs _ _ _ I _ _ G) as [_ Hok].
+  apply (aget_recs_of _ _ _ _ (inv_nd_recs _ _ _ I)) in Q.
+  rewrite (ok_recs _ _ _ _ _ _ Hok) in Q. eapply lastn_incl; exact Q.
+Qed.
+
+(* every accepted record is either still returned bit-for-bit, or has been pruned: its key is
+   below the lowest key held in state *)
+Lemma inv_log_queryable heighted s g id k rc :
+  reg_inv heighted s g -> In (k, rc) (log_of g id) ->
+  q_record s id k = Some rc \/
+  (q_record s id k = None /\ ~ In k (keys_of id (r_recs s)) /\
+   exists rg, aget id (r_regs s) = Some rg /\ 1 <= rg_num rg /\ k < rg_lowest rg).
+Proof.
+  unfold q_record. intros I Hin.
+  destruct (aget id (r_regs s)) as [rg|] eqn:G;
+    [|rewrite (inv_log_reg _ _ _ I _ G) in Hin; destruct Hin].
+  destruct (inv_regs _ _ _ I _ _ G) as [_ Hok].
+  assert (Hne : log_of g id <> []) by (intros E; rewrite E in Hin; destruct Hin).
+  pose proof (ok_num1 _ _ _ _ _ _ Hok Hne) as Hn1.
+  pose proof (reg_ok_rs_length _ _ _ _ _ _ Hok) as Hlen.
+  pose proof (ok_lowest _ _ _ _ _ _ Hok) as Hlow.
+  pose proof (ok_si _ _ _ _ _ _ Hok) as Hsi.
+  pose proof (ok_recs _ _ _ _ _ _ Hok) as Hrs.
+  destruct (lastn_split (Z.to_nat (rg_num rg)) (log_of g id)) as [pre Hpre]. rewrite <- Hrs in Hpre.
+  rewrite Hpre in Hin, Hsi. apply in_app_or in Hin. destruct Hin as [Hin|Hin].
+  - right. rewrite map_app in Hsi. apply si_app in Hsi. destruct Hsi as [_ [_ Hlt]].
+    assert (Hk : In k (map fst pre)) by (change k with (fst (k, rc)); apply in_map; exact Hin).
+    assert (Hnot : ~ In k (keys_of id (r_recs s))).
+    { unfold keys_of. intros Hk'. specialize (Hlt k k Hk Hk'). lia. }
+    split; [apply aget_None_keys_of; exact Hnot|]. split; [exact Hnot|].
+    exists rg. split; [reflexivity|]. split; [exact Hn1|].
+    rewrite Hlow. apply Hlt; [exact Hk|].
+    destruct (recs_of id (r_recs s)) as [|[d v] rest]; [cbn in Hlen; lia|]. left; reflexivity.
+  - left. apply (aget_recs_of _ _ _ _ (inv_nd_recs _ _ _ I)). exact Hin.
+Qed.
+
+Lemma C07_immutable_run heighted s g h id s' g' :
+  reg_inv heighted s g -> hist_wf h -> reg_run heighted (s, g) h = (s', g') ->
+  (exists l, log_of g' id = log_of g id ++ l) /\
+  (forall k rc, In (k, rc) (log_of g id) -> In (k, rc) (log_of g' id)) /\
+  (forall k rc, In (k, rc) (log_of g' id) ->
+     q_record s' id k = Some rc \/
+     (q_record s' id k = None /\ ~ In k (keys_of id (r_recs s')) /\
+      exists rg', aget id (r_regs s') = Some rg' /\ 1 <= rg_num rg' /\ k < rg_lowest rg')) /\
+  (forall k rc, q_record s' id k = Some rc -> In (k, rc) (log_of g' id)).
+Proof.
+  intros I Hh ER. pose proof (reg_inv_run' _ _ _ _ _ _ I Hh ER) as I'.
+  destruct (reg_run_ghost_grows _ _ _ _ _ _ id I Hh ER) as [[l Hl] _].
+  split; [exists l; exact Hl|]. split.
+  - intros k rc Hin. rewrite Hl. apply in_or_app; left; exact Hin.
+  - split; intros k rc; [apply (inv_log_queryable heighted) | apply (inv_query_sound heighted)]; exact I'.
+Qed.
+
+Lemma C07_record_stores heighted s g t o id key hashes s' k :
+  reg_inv heighted s g -> u64 key ->
+  reg_exec heighted t s (RRecord o id key hashes) = Ok (s', RespRecorded id k) ->
+  q_record s' id k
+    = Some {| rc_key := k; rc_hashes := hashes; rc_time := if heighted then t else key |} /\
+  (heighted = true -> k = key) /\
+  (heighted = false -> exists rg, aget id (r_regs s) = Some rg /\ k = rg_last rg + 1).
+Proof.
+  intros I Hkey E. destruct (reg_inv_record _ _ _ _ _ _ _ _ _ _ I Hkey E) as [rg [G [Er [Hget _]]]].
+  injection Er as ->. unfold q_record. rewrite Hget. unfold new_rec, new_key.
+  split; [reflexivity|]. split; intros ->; [reflexivity|]. exists rg; split; [exact G|reflexivity].
+Qed.
+
+Lemma C07_height_increasing s g t o id key hashes s' r rg :
+  reg_inv true s g -> u64 key ->
+  reg_exec true t s (RRecord o id key hashes) = Ok (s', r) -> aget id (r_regs s) = Some rg ->
+  rg_last rg < key /\ r = RespRecorded id key /\
+  exists rg', aget id (r_regs s') = Some rg' /\ rg_last rg' = key.
+Proof.
+  intros I Hkey E G.
+  destruct (reg_exec_record_inv _ _ _ _ _ _ _ _ _ E) as [rg0 [k0 [pr0 [G0 [_ [Hh _]]]]]].
+  rewrite G in G0. injection G0 as <-. split; [apply Hh; reflexivity|].
+  destruct (reg_inv_record _ _ _ _ _ _ _ _ _ _ I Hkey E) as [rg0 [G0 [Er [_ I']]]].
+  rewrite G in G0. injection G0 as <-. cbn [new_key] in Er, I'. split; [exact Er|].
+  destruct (aget id (r_regs s')) as [rg'|] eqn:G'.
+  - exists rg'. split; [reflexivity|]. destruct (inv_regs _ _ _ I' _ _ G') as [_ Hok].
+    rewrite (ok_last _ _ _ _ _ _ Hok), log_of_aset, Z.eqb_refl, map_app. cbn [map fst].
+    rewrite last_last. reflexivity.
+  - apply (inv_log_reg _ _ _ I') in G'. rewrite log_of_aset, Z.eqb_refl in G'.
+    destruct (log_of g id); discriminate G'.
+Qed.
+
+Lemma C07_height_not_above_rejected t s o id key hashes rg :
+  aget id (r_regs s) = Some rg -> o = rg_owner rg -> key <> 0 ->
+  existsb (too_long 66) hashes = false -> key <= rg_last rg ->
+  reg_exec true t s (RRecord o id key hashes) = Err ERR_REG_HEIGHT.
+Proof.
+  intros G -> Hk Hh Hle. cbn [reg_exec andb]. rewrite Hh, G.
+  replace (key =? 0) with false by lia. rewrite Z.eqb_refl. cbn [negb].
+  replace (rg_last rg <? key) with false by lia. reflexivity.
+Qed.
+
+Lemma C07_beacon_consecutive s g id :
+  reg_inv false s g ->
+  map fst (log_of g id) = map Z.of_nat (seq 1 (List.length (log_of g id))) /\
+  (forall i, (i < List.length (log_of g id))%nat -> nth i (map fst (log_of g id)) 0 = Z.of_nat i + 1).
+Proof.
+  intros I.
+  assert (H : map fst (log_of g id) = zseq (List.length (log_of g id))).
+  { destruct (aget id (r_regs s)) as [rg|] eqn:G.
+    - destruct (inv_regs _ _ _ I _ _ G) as [_ Hok]. apply (ok_consec _ _ _ _ _ _ Hok eq_refl).
+    - rewrite (inv_log_reg _ _ _ I _ G). reflexivity. }
+  split; [exact H|]. intros i Hi. rewrite H. unfold zseq.
+  change 0 with (Z.of_nat 0). rewrite map_nth, seq_nth by exact Hi. lia.
+Qed.
+
+Lemma C07_rejected_nothing heighted s g t m :
+  (is_ok (reg_validate_basic heighted m) = false \/ is_ok (reg_exec heighted t s m) = false) ->
+  reg_step heighted (s, g) (t, m) = (s, g).
+Proof.
+  unfold reg_step.
+  destruct (reg_validate_basic heighted m) as [[]| |]; [|reflexivity|reflexivity].
+  destruct (reg_exec heighted t s m) as [[s' r]| |]; [|reflexivity|reflexivity].
+  cbn. intros [H|H]; discriminate H.
+Qed.
+
+(* ================================================================== *)
+(* 7. C08: retention and limits                                        *)
+(* ================================================================== *)
+
+Lemma C08_newest_suffix heighted s g id rg :
+  reg_inv heighted s g -> aget id (r_regs s) = Some rg ->
+  recs_of id (r_recs s) = lastn (Z.to_nat (rg_num rg)) (log_of g id) /\
+  0 <= rg_num rg /\ rg_num rg <= limit_of s id /\
+  rg_num rg <= Z.of_nat (List.length (log_of g id)).
+Proof.
+  intros I G. destruct (inv_regs _ _ _ I _ _ G) as [_ Hok].
+  destruct (inv_limit _ _ _ _ _ I G) as [_ [_ HL]].
+  split; [apply (ok_recs _ _ _ _ _ _ Hok)|]. split; [apply (ok_num0 _ _ _ _ _ _ Hok)|].
+  split; [exact HL | apply (ok_numlen _ _ _ _ _ _ Hok)].
+Qed.
+
+Lemma C08_count_record heighted s g t o id key hashes s' r rg :
+  reg_inv heighted s g -> u64 key ->
+  reg_exec heighted t s (RRecord o id key hashes) = Ok (s', r) -> aget id (r_regs s) = Some rg ->
+  exists rg',
+    r_regs s' = aset id rg' (r_regs s) /\ r_limits s' = r_limits s /\
+    r_params s' = r_params s /\ r_next s' = r_next s /\
+    r = RespRecorded id (new_key heighted rg key) /\
+    rg_num rg' = Z.min (rg_num rg + 1) (limit_of s id) /\
+    recs_of id (r_recs s')
+      = (if limit_of s id <? rg_num rg + 1 then tl (recs_of id (r_recs s)) else recs_of id (r_recs s))
+        ++ [(new_key heighted rg key, new_rec heighted t rg key hashes)] /\
+    (forall id', id' <> id -> recs_of id' (r_recs s') = recs_of id' (r_recs s)).
+Proof.
+  intros I Hkey E G.
+  destruct (reg_exec_record_inv _ _ _ _ _ _ _ _ _ E) as [rg0 [k0 [pr0 [G0 [_ [Hh [_ [ER ->]]]]]]]].
+  rewrite G in G0. injection G0 as <-.
+  assert (Hk : rg_last rg < new_key heighted rg key).
+  { unfold new_key. destruct heighted; [apply Hh; reflexivity | lia]. }
+  destruct (record_new_shape heighted t s g id rg key hashes I G Hk (fun _ => Hkey))
+    as [recs' [rg' [pr [ER' [Hrs [Hoth [_ [_ [_ [_ [_ [Hnum' _]]]]]]]]]]]].
+  rewrite ER in ER'. injection ER' as -> -> ->.
+  destruct (inv_limit _ _ _ _ _ I G) as [_ [HL1 HL2]].
+  exists rg'. cbn [with_regs r_regs r_limits r_params r_next r_recs].
+  repeat split; try reflexivity; try assumption.
+  rewrite Hnum'. destruct (limit_of s id <? rg_num rg + 1) eqn:Ep; lia.
+Qed.
+
+Lemma C08_records_untouched heighted t s m s' r :
+  reg_exec heighted t s m = Ok (s', r) ->
+  match m with RRecord _ _ _ _ => True | _ => r_recs s' = r_recs s end.
+Proof.
+  intros E. destruct m as [o moniker name genesis type | o id key hashes | o id n]; [|exact I|].
+  - apply reg_exec_register_inv in E. destruct E as [_ ->]. reflexivity.
+  - apply reg_exec_purchase_inv in E. destruct E as [rg [_ [_ [_ [_ [_ [-> _]]]]]]]. reflexivity.
+Qed.
+
+Lemma C08_counters heighted s g id rg :
+  reg_inv heighted s g -> aget id (r_regs s) = Some rg ->
+  rg_num rg = Z.of_nat (List.length (recs_of id (r_recs s))) /\
+  rg_lowest rg = hd 0 (keys_of id (r_recs s)) /\
+  rg_last rg = last (map fst (log_of g id)) 0 /\
+  (rg_num rg > 0 ->
+     (exists rc, q_record s id (rg_last rg) = Some rc) /\
+     (exists rc, q_record s id (rg_lowest rg) = Some rc)).
+Proof.
+  intros I G. destruct (inv_regs _ _ _ I _ _ G) as [_ Hok].
+  pose proof (reg_ok_rs_length _ _ _ _ _ _ Hok) as Hlen.
+  pose proof (ok_lowest _ _ _ _ _ _ Hok) as Hlow.
+  pose proof (ok_last _ _ _ _ _ _ Hok) as Hlast.
+  pose proof (ok_recs _ _ _ _ _ _ Hok) as Hrs.
+  pose proof (ok_numlen _ _ _ _ _ _ Hok) as Hnl.
+  pose proof (inv_nd_recs _ _ _ I) as ND.
+  split; [lia|]. split; [exact Hlow|]. split; [exact Hlast|].
+  intros Hn. unfold q_record. split.
+  - destruct (exists_last (l := log_of g id)) as [l' [x Hx]].
+    { intros E. rewrite E in Hnl. cbn in Hnl. lia. }
+    rewrite Hx in Hlast, Hrs, Hnl. rewrite map_app in Hlast. cbn [map] in Hlast.
+    rewrite last_last in Hlast. rewrite app_length in Hnl. cbn [List.length] in Hnl.
+    replace (Z.to_nat (rg_num rg)) with (S (Z.to_nat (rg_num rg) - 1)) in Hrs by lia.
+    rewrite lastn_snoc in Hrs by lia.
+    exists (snd x). apply (aget_recs_of _ _ _ _ ND). rewrite Hrs, Hlast.
+    apply in_or_app; right; left. destruct x; reflexivity.
+  - destruct (recs_of id (r_recs s)) as [|[d v] rest] eqn:Ers; [cbn in Hlen; lia|].
+    cbn [map fst hd] in Hlow. exists v. apply (aget_recs_of _ _ _ _ ND).
+    rewrite Ers, Hlow. left; reflexivity.
+Qed.
+
+(* ---- limits ---- *)
+
+Lemma C08_limit_register heighted t s o moniker name genesis type s' r :
+  reg_exec heighted t s (RRegister o moniker name genesis type) = Ok (s', r) ->
+  r = RespRegistered (r_next s) /\ limit_of s' (r_next s) = rp_default_limit (r_params s).
+Proof.
+  intros E. apply reg_exec_register_inv in E. destruct E as [-> ->]. split; [reflexivity|].
+  unfold limit_of. cbn [r_limits]. rewrite aget_aset_eq. reflexivity.
+Qed.
+
+Lemma C08_limit_purchase heighted t s o id n s' r :
+  reg_exec heighted t s (RPurchase o id n) = Ok (s', r) ->
+  limit_of s' id = limit_of s id + n /\ limit_of s' id <= rp_max_limit (r_params s) /\
+  r_params s' = r_params s /\
+  r = RespPurchased id n (Z.max 0 (rp_max_limit (r_params s') - limit_of s' id)) /\
+  exists rg, aget id (r_regs s) = Some rg /\ o = rg_owner rg.
+Proof.
+  intros E. apply reg_exec_purchase_inv in E.
+  destruct E as [rg [G [Ho [_ [_ [Hmax [-> ->]]]]]]].
+  assert (HL : limit_of (with_regs s (r_regs s) (aset id (limit_of s id + n) (r_limits s)) (r_recs s)) id
+               = limit_of s id + n).
+  { unfold limit_of at 1. cbn [with_regs r_limits]. rewrite aget_aset_eq. reflexivity. }
+  rewrite HL. split; [reflexivity|]. split; [exact Hmax|]. split; [reflexivity|].
+  split; [|exists rg; auto].
+  f_equal. unfold max_purchasable. cbn [with_regs r_limits r_params]. rewrite aget_aset_eq.
+  destruct (rp_max_limit (r_params s) <=? limit_of s id + n) eqn:Em; lia.
+Qed.
+
+(* what one step does to a registration that already exists *)
+Lemma reg_step_registered heighted s g t m s1 g1 id rg :
+  reg_inv heighted s g -> reg_msg_wf m -> reg_step heighted (s, g) (t, m) = (s1, g1) ->
+  aget id (r_regs s) = Some rg ->
+  (exists rg1, aget id (r_regs s1) = Some rg1) /\ r_params s1 = r_params s /\
+  limit_of s id <= limit_of s1 id /\
+  ((forall o n, m <> RPurchase o id n) -> limit_of s1 id = limit_of s id).
+Proof.
+  intros I Hwf ES G. destruct (reg_step_cases _ _ _ _ _ _ _ I Hwf ES)
+    as [-> -> _ | o mon name gen ty -> E _ | o id0 key hashes rg0 -> G0 Hkey E _ _ | o id0 n c -> Hn E _].
+  - split; [exists rg; exact G|]. split; [reflexivity|]. split; [lia|reflexivity].
+  - apply reg_exec_register_inv in E. destruct E as [_ ->]. cbn [r_regs r_params].
+    assert (N : id <> r_next s) by (apply (inv_regs _ _ _ I) in G; lia).
+    assert (HL : forall X Y, limit_of {| r_params := r_params s; r_next := r_next s + 1; r_regs := X;
+                                r_limits := aset (r_next s) Y (r_limits s); r_recs := r_recs s |} id
+                             = limit_of s id).
+    { intros X Y. unfold limit_of. cbn [r_limits]. rewrite aget_aset_neq by congruence. reflexivity. }
+    rewrite HL. rewrite aget_aset_neq by congruence.
+    split; [exists rg; exact G|]. split; [reflexivity|]. split; [lia|reflexivity].
+  - destruct (C08_count_record _ _ _ _ _ _ _ _ _ _ _ I Hkey E G0) as [rg' [Hr [Hl [Hp _]]]].
+    assert (HL : limit_of s1 id = limit_of s id) by (unfold limit_of; rewrite Hl; reflexivity).
+    rewrite Hr, Hp, HL. split; [|split; [reflexivity|split; [lia|reflexivity]]].
+    destruct (Z.eq_dec id id0) as [->|N]; [rewrite aget_aset_eq; eauto|].
+    rewrite aget_aset_neq by congruence. eauto.
+  - pose proof (C08_limit_purchase _ _ _ _ _ _ _ _ E) as [HL [_ [Hp _]]].
+    apply reg_exec_purchase_inv in E. destruct E as [_ [_ [_ [_ [_ [_ [Es _]]]]]]].
+    split; [subst s1; exists rg; exact G|]. split; [exact Hp|].
+    destruct (Z.eq_dec id id0) as [->|N].
+    + split; [lia|]. intros Hnp. exfalso. apply (Hnp o n). reflexivity.
+    + assert (HL' : limit_of s1 id = limit_of s id).
+      { subst s1. unfold limit_of. cbn [with_regs r_limits]. rewrite aget_aset_neq by congruence. reflexivity. }
+      split; [lia|]. intros _. exact HL'.
+Qed.
+
+Lemma C08_limit_set_params s p id : limit_of (reg_set_params s p) id = limit_of s id.
+Proof. unfold reg_set_params. destruct (reg_params_valid p); reflexivity. Qed.
+
+Lemma C08_limit_monotone heighted h s g s' g' id rg :
+  reg_inv heighted s g -> hist_wf h -> reg_run heighted (s, g) h = (s', g') ->
+  aget id (r_regs s) = Some rg ->
+  (exists rg', aget id (r_regs s') = Some rg') /\ limit_of s id <= limit_of s' id.
+Proof.
+  intros I Hh ER. revert rg.
+  apply (reg_run_ind heighted (fun s g s' g' => forall rg, aget id (r_regs s) = Some rg ->
+    (exists rg', aget id (r_regs s') = Some rg') /\ limit_of s id <= limit_of s' id)) with (h := h) (g := g) (g' := g');
+    try assumption.
+  - intros s0 g0 _ rg G. split; [eauto|lia].
+  - intros s0 g0 t m s1 g1 s2 g2 I0 Hm Ht ES I1 IH rg G.
+    destruct (reg_step_registered _ _ _ _ _ _ _ _ _ I0 Hm ES G) as [[rg1 G1] [_ [Hle _]]].
+    destruct (IH _ G1) as [Hex Hle2]. split; [exact Hex|lia].
+Qed.
+
+Lemma C08_capacity heighted s g id si :
+  reg_inv heighted s g -> q_storage s id = Some si ->
+  si_limit si = limit_of s id /\ si_max si = rp_max_limit (r_params s) /\
+  si_max_purchasable si = Z.max 0 (rp_max_limit (r_params s) - si_limit si) /\
+  exists rg, aget id (r_regs s) = Some rg /\ si_owner si = rg_owner rg /\ si_used si = rg_num rg.
+Proof.
+  intros I. unfold q_storage. destruct (aget id (r_regs s)) as [rg|] eqn:G; [|discriminate].
+  intros [= <-]. cbn [si_limit si_max si_max_purchasable si_owner si_used].
+  destruct (inv_limit _ _ _ _ _ I G) as [HL _].
+  split; [reflexivity|]. split; [reflexivity|]. split; [|exists rg; auto].
+  unfold max_purchasable. rewrite HL.
+  destruct (rp_max_limit (r_params s) <=? limit_of s id) eqn:Em; lia.
+Qed.
+
+(* ---- closed form of the retained count while nothing is purchased for [id] ---- *)
+
+Definition no_purchase_for (id : Z) (m : reg_msg) : Prop := forall o n, m <> RPurchase o id n.
+
+Definition closed_form (p : reg_params) (id : Z) (s : reg_state) (g : ghost) : Prop :=
+  r_params s = p /\
+  forall rg, aget id (r_regs s) = Some rg ->
+    limit_of s id = rp_default_limit p /\
+    rg_num rg = Z.min (Z.of_nat (List.length (log_of g id))) (rp_default_limit p).
+
+Lemma closed_form_step heighted p id s g t m s1 g1 :
+  reg_inv heighted s g -> reg_msg_wf m -> no_purchase_for id m ->
+  reg_step heighted (s, g) (t, m) = (s1, g1) ->
+  closed_form p id s g -> closed_form p id s1 g1.
+Proof.
+  intros I Hwf Hnp ES [Hp J]. destruct (reg_step_cases _ _ _ _ _ _ _ I Hwf ES)
+    as [-> -> _ | o mon name gen ty -> E -> | o id0 key hashes rg0 -> G0 Hkey E _ -> | o id0 n c -> Hn E ->].
+  - split; assumption.
+  - pose proof (C08_limit_register _ _ _ _ _ _ _ _ _ _ E) as [_ HLnew].
+    pose proof (inv_next_unreg _ _ _ I) as Hun.
+    apply reg_exec_register_inv in E. destruct E as [_ Es].
+    split; [subst s1; exact Hp|]. intros rg1 G1.
+    change (log_of {| g_log := g_log g; g_reg := _ |} id) with (log_of g id).
+    destruct (Z.eq_dec id (r_next s)) as [->|N].
+    + rewrite HLnew, Hp. split; [reflexivity|].
+      rewrite (inv_log_reg _ _ _ I _ Hun). subst s1. cbn [r_regs] in G1. rewrite aget_aset_eq in G1.
+      injection G1 as <-. cbn [rg_num List.length].
+      pose proof (inv_params _ _ _ I) as Hv. unfold reg_params_valid in Hv. rewrite Hp in Hv. lia.
+    + subst s1. cbn [r_regs] in G1. rewrite aget_aset_neq in G1 by congruence.
+      destruct (J _ G1) as [J1 J2]. split; [|exact J2].
+      unfold limit_of in *. cbn [r_limits]. rewrite aget_aset_neq by congruence. exact J1.
+  - destruct (C08_count_record _ _ _ _ _ _ _ _ _ _ _ I Hkey E G0)
+      as [rg' [Hr [Hl [Hp' [_ [_ [Hnum _]]]]]]].
+    split; [congruence|]. intros rg1 G1. rewrite Hr in G1. rewrite log_of_aset.
+    assert (HL : limit_of s1 id = limit_of s id) by (unfold limit_of; rewrite Hl; reflexivity).
+    rewrite HL. destruct (Z.eq_dec id id0) as [->|N].
+    + rewrite aget_aset_eq in G1. injection G1 as <-. destruct (J _ G0) as [J1 J2].
+      split; [exact J1|]. rewrite Z.eqb_refl, Hnum, J1, J2, app_length. cbn [List.length]. lia.
+    + rewrite aget_aset_neq in G1 by congruence. apply Z.eqb_neq in N. rewrite N. exact (J _ G1).
+  - assert (N : id <> id0) by (intros ->; apply (Hnp o n); reflexivity).
+    apply reg_exec_purchase_inv in E. destruct E as [_ [_ [_ [_ [_ [_ [-> _]]]]]]].
+    split; [exact Hp|]. cbn [with_regs r_regs]. intros rg1 G1. destruct (J _ G1) as [J1 J2].
+    split; [|exact J2]. unfold limit_of in *. cbn [with_regs r_limits].
+    rewrite aget_aset_neq by congruence. exact J1.
+Qed.
+
+Lemma closed_form_run heighted p id h : forall s g s' g',
+  reg_inv heighted s g -> hist_wf h -> Forall (fun tm => no_purchase_for id (snd tm)) h ->
+  reg_run heighted (s, g) h = (s', g') -> closed_form p id s g -> closed_form p id s' g'.
+Proof.
+  induction h as [|[t m] h IH]; intros s g s' g' I Hh Hnp.
+  - intros [= <- <-] J; exact J.
+  - inversion Hh as [|? ? [Hm Ht] Hh']; subst. inversion Hnp as [|? ? Hnp1 Hnp']; subst.
+    cbn [fst snd] in Hm, Ht, Hnp1.
+    unfold reg_run. cbn [fold_left]. fold (reg_run heighted).
+    pose proof (reg_inv_step heighted s g t m I Hm Ht) as I'.
+    destruct (reg_step heighted (s, g) (t, m)) as [s1 g1] eqn:ES. cbn [fst snd] in I'.
+    intros ER J. apply (IH s1 g1 s' g' I' Hh' Hnp' ER).
+    exact (closed_form_step _ _ _ _ _ _ _ _ _ I Hm Hnp1 ES J).
+Qed.
+
+Lemma C08_closed_form heighted p start h id s g rg :
+  reg_params_valid p = true -> 1 <= start -> hist_wf h ->
+  Forall (fun tm => no_purchase_for id (snd tm)) h ->
+  reg_run heighted (reg_init p start, ghost_init) h = (s, g) ->
+  aget id (r_regs s) = Some rg ->
+  limit_of s id = rp_default_limit p /\
+  rg_num rg = Z.min (Z.of_nat (List.length (log_of g id))) (rp_default_limit p).
+Proof.
+  intros Hp Hs Hh Hnp ER G.
+  assert (J : closed_form p id s g).
+  { eapply closed_form_run; try eassumption; [apply reg_inv_init; assumption|].
+    split; [reflexivity|]. cbn. discriminate. }
+  destruct J as [_ J]. exact (J _ G).
+Qed.
+
+(* ================================================================== *)
+(* 8. C09: sequential ids, immutable metadata, sole-writer owner       *)
+(* ================================================================== *)
+
+Definition reg_ids (g : ghost) : list Z := map (fun x => fst (fst x)) (g_reg g).
+Definition ids_from (start : Z) (n : nat) : list Z := map (fun i => start + Z.of_nat i) (seq 0 n).
+
+Lemma ids_from_S start n : ids_from start (S n) = ids_from start n ++ [start + Z.of_nat n].
+Proof. unfold ids_from. rewrite seq_S, map_app. reflexivity. Qed.
+
+Lemma ids_from_si start n : strictly_increasing (ids_from start n).
+Proof.
+  induction n as [|n IH]; [exact I|]. rewrite ids_from_S. apply si_snoc; [exact IH|].
+  intros y Hy. unfold ids_from in Hy. apply in_map_iff in Hy. destruct Hy as [i [<- Hi]].
+  apply in_seq in Hi. lia.
+Qed.
+
+Definition seq_inv (start : Z) (s : reg_state) (g : ghost) : Prop :=
+  r_next s = start + Z.of_nat (List.length (g_reg g)) /\
+  reg_ids g = ids_from start (List.length (g_reg g)).
+
+(* no invariant and no well-formedness needed: the id counter moves only on registration *)
+Lemma seq_inv_step heighted start s g t m :
+  seq_inv start s g ->
+  seq_inv start (fst (reg_step heighted (s, g) (t, m))) (snd (reg_step heighted (s, g) (t, m))).
+Proof.
+  intros [Hn Hids]. unfold reg_step.
+  destruct (reg_validate_basic heighted m) as [[]| |]; [|split; assumption|split; assumption].
+  destruct (reg_exec heighted t s m) as [[s' r]| |] eqn:E; [|split; assumption|split; assumption].
+  destruct m as [o moniker name genesis type | o id key hashes | o id n].
+  - apply reg_exec_register_inv in E. destruct E as [-> ->]. cbn [fst snd]. unfold seq_inv, reg_ids.
+    cbn [r_next g_reg]. rewrite app_length, map_app. cbn [List.length map fst].
+    replace (List.length (g_reg g) + 1)%nat with (S (List.length (g_reg g))) by lia.
+    rewrite ids_from_S. fold (reg_ids g). rewrite Hids, Hn. split; [lia|reflexivity].
+  - apply reg_exec_record_inv in E. destruct E as [rg [k [pr [_ [_ [_ [_ [ER ->]]]]]]]].
+    apply record_new_frame in ER. destruct ER as [_ [Hnext _]].
+    destruct (aget (id, k) (r_recs s')); cbn [fst snd]; unfold seq_inv, reg_ids; cbn [g_reg];
+      rewrite Hnext; split; assumption.
+  - apply reg_exec_purchase_inv in E. destruct E as [rg [_ [_ [_ [_ [_ [-> ->]]]]]]].
+    cbn [fst snd]. split; assumption.
+Qed.
+
+Lemma seq_inv_run heighted start h : forall s g,
+  seq_inv start s g ->
+  seq_inv start (fst (reg_run heighted (s, g) h)) (snd (reg_run heighted (s, g) h)).
+Proof.
+  induction h as [|[t m] h IH]; intros s g J; [exact J|].
+  unfold reg_run. cbn [fold_left]. fold (reg_run heighted).
+  pose proof (seq_inv_step heighted start s g t m J) as J'.
+  destruct (reg_step heighted (s, g) (t, m)) as [s1 g1]. apply IH; exact J'.
+Qed.
+
+Lemma C09_sequential heighted p start h s g :
+  reg_run heighted (reg_init p start, ghost_init) h = (s, g) ->
+  map (fun x => fst (fst x)) (g_reg g)
+    = map (fun i => start + Z.of_nat i) (seq 0 (List.length (g_reg g))) /\
+  r_next s = start + Z.of_nat (List.length (g_reg g)) /\
+  NoDup (map (fun x => fst (fst x)) (g_reg g)).
+Proof.
+  intros ER. assert (J0 : seq_inv start (reg_init p start) ghost_init).
+  { split; cbn; [lia|reflexivity]. }
+  pose proof (seq_inv_run heighted start h _ _ J0) as J. rewrite ER in J. cbn [fst snd] in J.
+  destruct J as [Hn Hids]. split; [exact Hids|]. split; [exact Hn|].
+  change (NoDup (reg_ids g)). rewrite Hids. apply si_NoDup, ids_from_si.
+Qed.
+
+Lemma C09_register_next heighted s g t o moniker name genesis type s' r :
+  reg_inv heighted s g ->
+  reg_exec heighted t s (RRegister o moniker name genesis type) = Ok (s', r) ->
+  r = RespRegistered (r_next s) /\ r_next s' = r_next s + 1 /\
+  q_registration s (r_next s) = None /\
+  q_registration s' (r_next s)
+    = Some {| rg_id := r_next s; rg_owner := o; rg_moniker := moniker; rg_name := name;
+              rg_genesis := if heighted then genesis else EmptyString;
+              rg_type := if heighted then type else EmptyString;
+              rg_last := 0; rg_num := 0; rg_lowest := 0; rg_regtime := t |} /\
+  (forall id, id <> r_next s -> q_registration s' id = q_registration s id).
+Proof.
+  intros I E. apply reg_exec_register_inv in E. destruct E as [-> ->].
+  unfold q_registration. cbn [r_next r_regs]. rewrite aget_aset_eq.
+  split; [reflexivity|]. split; [reflexivity|]. split; [apply (inv_next_unreg _ _ _ I)|].
+  split; [reflexivity|]. intros id N. apply aget_aset_neq. congruence.
+Qed.
+
+Lemma C09_metadata heighted s g id o moniker name genesis type t :
+  reg_inv heighted s g -> In (id, RRegister o moniker name genesis type, t) (g_reg g) ->
+  exists rg, q_registration s id = Some rg /\ rg_id rg = id /\
+    rg_owner rg = o /\ rg_moniker rg = moniker /\ rg_name rg = name /\ rg_regtime rg = t /\
+    (heighted = true -> rg_genesis rg = genesis /\ rg_type rg = type).
+Proof.
+  intros I Hin. destruct (inv_meta _ _ _ I _ _ _ Hin) as [rg [G M]]. exists rg.
+  split; [exact G|]. destruct (inv_regs _ _ _ I _ _ G) as [_ Hok].
+  split; [apply (ok_id _ _ _ _ _ _ Hok) | exact M].
+Qed.
+
+Lemma C09_metadata_run heighted s g h s' g' id o moniker name genesis type t :
+  reg_inv heighted s g -> hist_wf h -> reg_run heighted (s, g) h = (s', g') ->
+  In (id, RRegister o moniker name genesis type, t) (g_reg g) ->
+  exists rg, q_registration s' id = Some rg /\ rg_id rg = id /\
+    rg_owner rg = o /\ rg_moniker rg = moniker /\ rg_name rg = name /\ rg_regtime rg = t /\
+    (heighted = true -> rg_genesis rg = genesis /\ rg_type rg = type).
+Proof.
+  intros I Hh ER Hin. pose proof (reg_inv_run' _ _ _ _ _ _ I Hh ER) as I'.
+  destruct (reg_run_ghost_grows _ _ _ _ _ _ id I Hh ER) as [_ [l Hl]].
+  apply (C09_metadata _ _ _ _ _ _ _ _ _ _ I'). rewrite Hl. apply in_or_app; left; exact Hin.
+Qed.
+
+Lemma C09_only_owner heighted t s m s' r :
+  reg_exec heighted t s m = Ok (s', r) ->
+  match m with
+  | RRegister _ _ _ _ _ => True
+  | RRecord o id _ _ | RPurchase o id _ => exists rg, aget id (r_regs s) = Some rg /\ o = rg_owner rg
+  end.
+Proof.
+  intros E. destruct m as [o moniker name genesis type | o id key hashes | o id n]; [exact I| |].
+  - apply reg_exec_record_inv in E. destruct E as [rg [_ [_ [G [Ho _]]]]]. eauto.
+  - apply reg_exec_purchase_inv in E. destruct E as [rg [G [Ho _]]]. eauto.
+Qed.
+
+Lemma C09_non_owner heighted t s o id rg :
+  aget id (r_regs s) = Some rg -> o <> rg_owner rg ->
+  (forall key hashes, exists c, reg_exec heighted t s (RRecord o id key hashes) = Err c) /\
+  (forall n, exists c, reg_exec heighted t s (RPurchase o id n) = Err c).
+Proof.
+  intros G N. assert (Eo : negb (o =? rg_owner rg) = true) by lia. split.
+  - intros key hashes. cbn [reg_exec]. rewrite G, Eo.
+    destruct (heighted && (key =? 0)); [eauto|]. destruct (existsb (too_long 66) hashes); eauto.
+  - intros n. cbn [reg_exec]. rewrite G, Eo. destruct (n =? 0); eauto.
+Qed.
+
+Lemma C09_unknown_id heighted t s o id :
+  aget id (r_regs s) = None ->
+  (forall key hashes, exists c, reg_exec heighted t s (RRecord o id key hashes) = Err c) /\
+  (forall n, exists c, reg_exec heighted t s (RPurchase o id n) = Err c).
+Proof.
+  intros G. split.
+  - intros key hashes. cbn [reg_exec]. rewrite G.
+    destruct (heighted && (key =? 0)); [eauto|]. destruct (existsb (too_long 66) hashes); eauto.
+  - intros n. cbn [reg_exec]. rewrite G. destruct (n =? 0); eauto.
+Qed.
+
+(* ================================================================== *)
+(* 9. The statements in the form used by props/C07.v, C08.v, C09.v     *)
+(* ================================================================== *)
+
+Lemma C07_accepted_record_immutable_stmt :
+  forall heighted s g h id,
+    reg_inv heighted s g ->
+    Forall (fun tm => reg_msg_wf (snd tm) /\ 0 <= fst tm) h ->
+    let '(s', g') := reg_run heighted (s, g) h in
+    (exists l, log_of g' id = log_of g id ++ l) /\
+    (forall k rc, In (k, rc) (log_of g id) -> In (k, rc) (log_of g' id)) /\
+    (forall k rc, In (k, rc) (log_of g' id) ->
+       q_record s' id k = Some rc \/
+       (q_record s' id k = None /\ ~ In k (keys_of id (r_recs s')) /\
+        exists rg', q_registration s' id = Some rg' /\ 1 <= rg_num rg' /\ k < rg_lowest rg')) /\
+    (forall k rc, q_record s' id k = Some rc -> In (k, rc) (log_of g' id)).
+Proof.
+  intros heighted s g h id I Hh. destruct (reg_run heighted (s, g) h) as [s' g'] eqn:ER.
+  exact (C07_immutable_run _ _ _ _ _ _ _ I Hh ER).
+Qed.
+
+Lemma C08_count_evolution_stmt :
+  forall heighted s g t o id key hashes s' r rg,
+    reg_inv heighted s g -> u64 key ->
+    reg_exec heighted t s (RRecord o id key hashes) = Ok (s', r) ->
+    q_registration s id = Some rg ->
+    exists rg' k rc,
+      r = RespRecorded id k /\ q_registration s' id = Some rg' /\
+      rg_num rg' = Z.min (rg_num rg + 1) (limit_of s id) /\
+      recs_of id (r_recs s')
+        = (if limit_of s id <? rg_num rg + 1 then tl (recs_of id (r_recs s)) else recs_of id (r_recs s))
+          ++ [(k, rc)] /\
+      (forall id', id' <> id ->
+         recs_of id' (r_recs s') = recs_of id' (r_recs s) /\
+         q_registration s' id' = q_registration s id') /\
+      (forall id', limit_of s' id' = limit_of s id').
+Proof.
+  intros heighted s g t o id key hashes s' r rg I Hkey E G.
+  destruct (C08_count_record _ _ _ _ _ _ _ _ _ _ _ I Hkey E G)
+    as [rg' [Hr [Hl [_ [_ [Er [Hnum [Hrs Hoth]]]]]]]].
+  exists rg', (new_key heighted rg key), (new_rec heighted t rg key hashes).
+  unfold q_registration. rewrite Hr, aget_aset_eq.
+  split; [exact Er|]. split; [reflexivity|]. split; [exact Hnum|]. split; [exact Hrs|].
+  split; [|intros id'; unfold limit_of; rewrite Hl; reflexivity].
+  intros id' N. split; [apply Hoth; exact N | apply aget_aset_neq; congruence].
+Qed.
+
+Lemma C08_limit_unchanged_stmt :
+  forall heighted s g t m id rg,
+    reg_inv heighted s g -> reg_msg_wf m -> q_registration s id = Some rg ->
+    (forall o n, m <> RPurchase o id n) ->
+    limit_of (fst (reg_step heighted (s, g) (t, m))) id = limit_of s id.
+Proof.
+  intros heighted s g t m id rg I Hwf G Hnp.
+  destruct (reg_step heighted (s, g) (t, m)) as [s1 g1] eqn:ES.
+  destruct (reg_step_registered _ _ _ _ _ _ _ _ _ I Hwf ES G) as [_ [_ [_ H]]]. exact (H Hnp).
+Qed.
+
+Lemma C08_limit_monotone_stmt :
+  forall heighted s g h id rg,
+    reg_inv heighted s g ->
+    Forall (fun tm => reg_msg_wf (snd tm) /\ 0 <= fst tm) h ->
+    q_registration s id = Some rg ->
+    let '(s', g') := reg_run heighted (s, g) h in
+    (exists rg', q_registration s' id = Some rg') /\ limit_of s id <= limit_of s' id.
+Proof.
+  intros heighted s g h id rg I Hh G. destruct (reg_run heighted (s, g) h) as [s' g'] eqn:ER.
+  exact (C08_limit_monotone _ _ _ _ _ _ _ _ I Hh ER G).
+Qed.
+
+Lemma C08_closed_form_stmt :
+  forall heighted p start h id,
+    reg_params_valid p = true -> 1 <= start ->
+    Forall (fun tm => reg_msg_wf (snd tm) /\ 0 <= fst tm) h ->
+    Forall (fun tm => forall o n, snd tm <> RPurchase o id n) h ->
+    let '(s, g) := reg_run heighted (reg_init p start, ghost_init) h in
+    forall rg, q_registration s id = Some rg ->
+      limit_of s id = rp_default_limit p /\
+      rg_num rg = Z.min (Z.of_nat (List.length (log_of g id))) (rp_default_limit p).
+Proof.
+  intros heighted p start h id Hp Hs Hh Hnp.
+  destruct (reg_run heighted (reg_init p start, ghost_init) h) as [s g] eqn:ER.
+  intros rg G. exact (C08_closed_form _ _ _ _ _ _ _ _ Hp Hs Hh Hnp ER G).
+Qed.
+
+Lemma C09_ids_sequential_stmt :
+  forall heighted p start h,
+    let '(s, g) := reg_run heighted (reg_init p start, ghost_init) h in
+    map (fun x => fst (fst x)) (g_reg g)
+      = map (fun i => start + Z.of_nat i) (seq 0 (List.length (g_reg g))) /\
+    r_next s = start + Z.of_nat (List.length (g_reg g)) /\
+    NoDup (map (fun x => fst (fst x)) (g_reg g)).
+Proof.
+  intros heighted p start h.
+  destruct (reg_run heighted (reg_init p start, ghost_init) h) as [s g] eqn:ER.
+  exact (C09_sequential _ _ _ _ _ _ ER).
+Qed.
+
+Lemma C09_metadata_immutable_stmt :
+  forall heighted s g h id o moniker name genesis type t,
+    reg_inv heighted s g ->
+    Forall (fun tm => reg_msg_wf (snd tm) /\ 0 <= fst tm) h ->
+    In (id, RRegister o moniker name genesis type, t) (g_reg g) ->
+    let '(s', g') := reg_run heighted (s, g) h in
+    In (id, RRegister o moniker name genesis type, t) (g_reg g') /\
+    exists rg, q_registration s' id = Some rg /\ rg_id rg = id /\
+      rg_owner rg = o /\ rg_moniker rg = moniker /\ rg_name rg = name /\ rg_regtime rg = t /\
+      (heighted = true -> rg_genesis rg = genesis /\ rg_type rg = type).
+Proof.
+  intros heighted s g h id o moniker name genesis type t I Hh Hin.
+  destruct (reg_run heighted (s, g) h) as [s' g'] eqn:ER. split.
+  - destruct (reg_run_ghost_grows _ _ _ _ _ _ id I Hh ER) as [_ [l Hl]].
+    rewrite Hl. apply in_or_app; left; exact Hin.
+  - exact (C09_metadata_run _ _ _ _ _ _ _ _ _ _ _ _ _ I Hh ER Hin).
 Qed.
